@@ -792,6 +792,18 @@ class LogOperationRecorder(BaseOperationRecorder):
         pass
 
 
+class _TestClientDumper(yamlloader.ordereddict.CSafeDumper):
+    """
+    YAML dumper used by TestClientRecorder. In addition to the types of the
+    safe dumper, it represents CIMDateTime objects (which toyaml() returns
+    for datetime and timedelta objects) as their string value.
+    """
+
+
+_TestClientDumper.add_representer(
+    CIMDateTime, lambda dumper, data: dumper.represent_str(str(data)))
+
+
 class TestClientRecorder(BaseOperationRecorder):
     """
     An operation recorder that generates test cases for each recorded
@@ -957,7 +969,7 @@ class TestClientRecorder(BaseOperationRecorder):
         data = yaml.dump(
             testcases, encoding=None, allow_unicode=True,
             default_flow_style=False, indent=4,
-            Dumper=yamlloader.ordereddict.CSafeDumper)
+            Dumper=_TestClientDumper)
 
         data = data.replace('\n\n', '\n')  # YAML dump duplicates newlines
         self._fp.write(data)
